@@ -52,6 +52,7 @@ TEMPLATES = {
     "arrdelntnolen": ('<array name="f{i}" type="string" delimited="true" trailing-delimiter="false"/>', True),
     "arrdelntnolenV": ('<array name="f{i}" type="V" delimited="true" trailing-delimiter="false"/>', True),
     "lenarrdelnt": ('<length name="n{i}" type="char"/><array name="f{i}" type="string" length="n{i}" delimited="true" trailing-delimiter="false"/>', True),
+    "arrstr2del": ('<array name="f{i}" type="string" length="2" delimited="true"/>', True),
     "optchar": ('<field name="f{i}" type="char" optional="true"/>', False),
     "optstr": ('<field name="f{i}" type="string" optional="true"/>', False),
     "optenum": ('<field name="f{i}" type="E" optional="true"/>', False),
